@@ -5,6 +5,7 @@ import (
 	"os"
 	"sort"
 	"strings"
+	"sync"
 	"time"
 
 	"github.com/massnetorg/mass-core/massutil"
@@ -17,20 +18,20 @@ import (
 
 // Run is one replay of a script on a fresh node and a fresh wallet directory.
 type Run struct {
-	S      *Script
-	Dir    string
-	N      *sim.Node
-	W      *sim.Wallet
-	Ctl    *dbwrap.Ctl
-	Active map[int]bool // wallets the wallet manager is expected to know (created/imported, not removed)
-	Issued map[int][]string
-	Lines  []string // the history as this replay executed it (format of internal/hist)
-	Seen     map[wire.Hash]bool // blocks that have been on the wallet's synced chain
-	Attached map[int]bool // blocks the node has connected at some time
-	NodeDone []bool // node operations already performed (the node moved on while the wallet was down)
-	Stale  bool
-	nq     int
-	Restarts int
+	S         *Script
+	Dir       string
+	N         *sim.Node
+	W         *sim.Wallet
+	Ctl       *dbwrap.Ctl
+	Active    map[int]bool // wallets the wallet manager is expected to know (created/imported, not removed)
+	Issued    map[int][]string
+	Lines     []string           // the history as this replay executed it (format of internal/hist)
+	Seen      map[wire.Hash]bool // blocks that have been on the wallet's synced chain
+	Attached  map[int]bool       // blocks the node has connected at some time
+	NodeDone  []bool             // node operations already performed (the node moved on while the wallet was down)
+	Stale     bool
+	nq        int
+	Restarts  int
 	WaitLimit time.Duration
 	TipBefore wire.Hash // stored tip found by the last Open before Start ran
 	RecTip    wire.Hash // the wallet's tip according to the emitted record (last accepted P)
@@ -448,4 +449,23 @@ func pick(snap string, soft bool) string {
 		}
 	}
 	return strings.Join(out, "\n")
+}
+
+// stuck background tasks per faulted call (site/kind), counted per harness process: see the OpWait cases of
+// fault.go and plan.go
+var (
+	stuckMu    sync.Mutex
+	stuckSites = map[string]int{}
+)
+
+func stuckSeen(k string) int {
+	stuckMu.Lock()
+	defer stuckMu.Unlock()
+	return stuckSites[k]
+}
+
+func stuckNote(k string) {
+	stuckMu.Lock()
+	stuckSites[k]++
+	stuckMu.Unlock()
 }
